@@ -112,14 +112,11 @@ class ZA:
         return None
 
 
-_cache: dict = {}
-
-
 def anchors(repo: Repo) -> ZA:
-    if repo.digest not in _cache:
-        _cache.clear()
-        _cache[repo.digest] = ZA(repo)
-    return _cache[repo.digest]
+    za = getattr(repo, '_za', None)
+    if za is None:
+        za = repo._za = ZA(repo)
+    return za
 
 
 def stmt_list_containing(node: ast.AST) -> tuple[ast.AST, list[ast.stmt], int]:
